@@ -118,7 +118,8 @@ func c18Kinds[V any](vs *ValSpec[V], tier string) []UniverseDef {
 		}
 	}
 	und := Collators()[0]
-	coll := CollSpec{Name: "GC5", Free: []string{"a", "A", "ab", rep('p', 16) + "x", rep('p', 16) + "X"}, Probes: []string{"b"}}
+	coll := CollSpec{Name: "GC5", Prefix: true, Free: []string{"a", "A", "ab", rep('p', 16) + "x", rep('p', 16) + "X"}, Probes: []string{"b"},
+		Prefixes: []string{rep('p', 16), rep('p', 12), "a"}}
 	out = append(out, UniverseDef{Name: "collation[string,und]/GC5" + tag, Build: func() *Universe {
 		u := NewCollUniverseD(coll, und, "string", false, func(spec *KeySpec[string], index map[string]int) Driver {
 			return NewDriverV[string, V](art.NewCollationSortedTree[string, V](), spec, index, vs)
@@ -201,6 +202,11 @@ func c18Checks(x *Exec) *Violation {
 	}
 	if x.U.HasRange {
 		if v := (MonC03{}).Light(x, nil); v != nil {
+			return v
+		}
+	}
+	if x.U.HasPrefix {
+		if v := (MonC04{}).State(x); v != nil {
 			return v
 		}
 	}
